@@ -11,7 +11,9 @@ package stats
 func Stats$1
   props C08 C09 C10
   refines parser.StopOnErr
+  modifies *
 func Stats$2
   props C08 C09 C10
   refines parser.StopOnErr
+  modifies *
 @*/
